@@ -83,10 +83,20 @@ Definition parse_ro (q : areq) : bool + areq :=
    W_Late: the body is cut somewhere behind the form tag (or not at all when it is short) *)
 Inductive wcut := W_None | W_Early | W_Late.
 
+(* the `id` parameter(s) of a callback request, in the order of Request.Form: the values of the form
+   body (POST / PUT / PATCH with application/x-www-form-urlencoded) first, then those of the URL query.
+   Some k = the id of the k-th created request (an index no request has = an id the storage does not
+   know), None = an empty value. No id at all = both lists empty. *)
+Record cbids := { cb_body : list (option nat); cb_query : list (option nat) }.
+Definition cb_all (i : cbids) : list (option nat) := cb_body i ++ cb_query i.
+(* ParseAuthorizeCallbackRequest: r.ParseForm(); r.Form.Get("id") = the FIRST value; "" = missing *)
+Definition cb_id (i : cbids) : option nat :=
+  match cb_all i with [] => None | x :: _ => x end.
+
 Inductive op :=
 | Authorize (r : router) (q : areq) (w : wcut)
 | Login (k : nat)                                  (* k-th created request *)
-| Callback (r : router) (k : option nat) (f : cfault) (w : wcut).  (* None: no id parameter *)
+| Callback (r : router) (ids : cbids) (f : cfault) (w : wcut).
 
 (* stored auth request *)
 Record sreq := { s_client : string; s_uri : string; s_rt : string; s_mode : string;
@@ -334,7 +344,7 @@ Section Handlers.
     match o with
     | Authorize r q w => let '(st', x) := authorize r st q in (st', deliver w x)
     | Login k => (update_nth k mark_done st, ONone)
-    | Callback _ k f w => let '(st', x) := callback st k f in (st', deliver w x)
+    | Callback _ ids f w => let '(st', x) := callback st (cb_id ids) f in (st', deliver w x)
     end.
 
   (* the write fault an operation carries, and the operation without it *)
